@@ -51,8 +51,8 @@ IsStr(v)    == v.t = "str"
 
 (***************************************************************************)
 (* helpers.go: RemoveElementAfter / RemoveElementsBeforeIncluding          *)
-(* (functional reading; the Go version of the first one writes into the    *)
-(* caller's slice - see DESIGN Appendix A.6)                               *)
+(* (both return new slices; until fix bb9eea3 the first one wrote into the  *)
+(* caller's slice, which the specification modelled as an operator Mut)    *)
 (***************************************************************************)
 FirstMarker(s, marker) ==
   CHOOSE j \in 1..Len(s) : /\ s[j] = marker /\ j + 1 <= Len(s)
@@ -99,35 +99,6 @@ getOp(kp, search) ==
   ELSE IF last \in DOMAIN CoreOperators.m THEN Found(CoreOperators.m[last])
        ELSE traverseMapPath(kp, AggregationOperators, FALSE)
 
-(***************************************************************************)
-(* RemoveElementAfter writes into the caller's slice.  After getOp(kp) in  *)
-(* a search stage the caller's key path therefore reads differently when   *)
-(* the traversal met an OperatorMap entry ("facets", "operator"): the      *)
-(* element after the marker is gone, the rest moved up, the last element   *)
-(* doubled.  Mut(kp, search) is the slice content after getOp(kp, search). *)
-(* (Sharing of one backing array between a parent path and its children    *)
-(* depends on slice capacities and is not modelled; it is not observable   *)
-(* in the outcome classes.)  Observable effect today: two or more levels   *)
-(* below such a marker the grand-parent key of a leaf is no longer         *)
-(* "$binary", so base64 payloads there get the generic placeholder.        *)
-(***************************************************************************)
-RECURSIVE TMut(_, _, _), TMutLoop(_, _, _, _)
-TMutLoop(path, i, cur, search) ==
-  IF i > Len(path) \/ cur.tag # "tab" THEN path
-  ELSE IF path[i] \notin DOMAIN cur.m THEN path
-  ELSE LET val == cur.m[path[i]] IN
-       IF Len(path) > i /\ val = OA
-       THEN SubSeq(path, 1, i) \o TMut(SubSeq(path, i + 1, Len(path)),
-                                       IF search THEN SearchOperators ELSE CoreOperators, search)
-       ELSE IF val = OM
-       THEN IF HasMarker(path, path[i])
-            THEN LET j == FirstMarker(path, path[i]) IN
-                 SubSeq(path, 1, j) \o SubSeq(path, j + 2, Len(path)) \o <<path[Len(path)]>>
-            ELSE path
-       ELSE TMutLoop(path, i + 1, val, search)
-TMut(path, tab, search) == TMutLoop(path, 1, tab, search)
-Mut(kp, search) == IF search THEN TMut(kp, SearchAggregationOperators, TRUE) ELSE kp
-
 \* getOp([]string{s}) for a string VALUE: abstract strings equal a vocabulary word only in class "dollarop"
 StrIsOp(v, search) == ~search /\ v.cls = "dollarop"
 
@@ -151,6 +122,7 @@ redactScalarValue(c, kp, v, search, selRed) ==
       gpk == IF Len(kp) > 1 THEN kp[Len(kp) - 1] ELSE ""
   IN IF op.ok /\ op.v = E THEN Keep(v)
      ELSE IF ~search /\ c.re /\ ~selRed /\ ~reMatchesAnyKeyInPath(c, kp) THEN Keep(v)
+     ELSE IF pk = "subType" /\ gpk = "$binary" THEN Keep(v)      \* BSON subtype is not user data (fix 2296b25)
      ELSE IF IsStr(v) /\ pk = "$date" THEN Out(v, "isodate")
      ELSE IF IsStr(v) /\ pk = "$oid" THEN Out(v, "oid")
      ELSE IF IsStr(v) /\ pk = "base64" /\ gpk = "$binary" THEN Out(v, "b64")
@@ -281,9 +253,8 @@ redactPipelineStage(c, stage, eager, kp, search) ==
   Obj([i \in 1..Len(stage.kv) |->
     LET k     == stage.kv[i][1]
         v     == stage.kv[i][2]
-        nkp0  == Append(kp, k)
-        op    == getOp(nkp0, search)
-        nkp   == Mut(nkp0, search)       \* what the slice holds from here on
+        nkp   == Append(kp, k)
+        op    == getOp(nkp, search)
         meta0 == IF op.ok THEN op.v ELSE Nil
         hk    == eager /\ ~op.ok
         meta  == IF op.ok /\ search /\ meta0.tag = "tab" /\ v.t = "obj" THEN augmentOp(c, meta0, v) ELSE meta0
